@@ -75,6 +75,9 @@ func runOne(t *testing.T, spec *runSpec) (res *RunResult) {
 			case <-limit:
 				abortRun.Store(true)
 				limit = nil
+				if debugTrace {
+					fmt.Fprintf(os.Stderr, "GUARD: wall limit reached after %v\n", time.Since(start))
+				}
 			case <-tick.C:
 				if p := progress.Load(); p != last {
 					last, lastChange = p, time.Now()
@@ -114,6 +117,7 @@ func runOne(t *testing.T, spec *runSpec) (res *RunResult) {
 			bodyDone = true
 		}()
 		c := newCluster(t, cfg, spec.Seed)
+		c.realStart = start
 		cl = c
 		defer uninstallHooks()
 		dir, err := os.MkdirTemp(workdirRoot(), fmt.Sprintf("babblesim-%d-", os.Getpid()))
